@@ -457,3 +457,166 @@ Proof.
     rewrite (cols_in_place_ok _ idx); [reflexivity| |exact Hdst].
     intros nf Hin. apply Hop; [exact Hin|reflexivity].
 Qed.
+
+(* ------------------------------------------------------------------ DataFrame.sort_values *)
+Lemma lookup_in k cols f : lookup k cols = Some f -> has_name k cols = true /\ exists k', In (k', f) cols.
+Proof.
+  induction cols as [|[m g] t IH]; cbn [lookup has_name]; [discriminate|].
+  destruct (m =? k) eqn:E.
+  - intros H. inversion H; subst g. split; [reflexivity|]. exists m. left. reflexivity.
+  - intros H. destruct (IH H) as [H1 [k' H2]]. split; [exact H1|]. exists k'. right. exact H2.
+Qed.
+
+Lemma key_columns_readers cols : forall by_ kcs,
+  key_columns cols by_ = Some kcs ->
+  all_in by_ cols = true /\
+  exists fields, readers_of by_ cols = Ok fields /\ map field_cells fields = kcs /\
+                 Forall (fun f => exists k', In (k', f) cols) fields.
+Proof.
+  induction by_ as [|k t IH]; intros kcs H; cbn [key_columns fold_right] in H.
+  - inversion H; subst. split; [reflexivity|]. exists []. repeat split. constructor.
+  - fold (key_columns cols t) in H. destruct (lookup k cols) as [f|] eqn:El; [|discriminate].
+    destruct (key_columns cols t) as [l|] eqn:Ek; [|discriminate]. inversion H; subst kcs; clear H.
+    destruct (IH l eq_refl) as [Ha [fields [Hr [Hm Hf]]]].
+    destruct (lookup_in k cols f El) as [Hn Hin].
+    split; [cbn [all_in]; rewrite Hn, Ha; reflexivity|].
+    exists (f :: fields). cbn [readers_of]. rewrite El, Hr. cbn [bind map]. rewrite Hm.
+    repeat split. constructor; assumption.
+Qed.
+
+Lemma lexsort_in_range n kcs : 0 <= n -> in_range n (lexsort_perm (rows_of n kcs)) = true.
+Proof.
+  intros Hn. unfold in_range. apply forallb_forall. intros x Hx. unfold lexsort_perm in Hx.
+  apply argsort_range in Hx. unfold len in Hx. rewrite rows_of_length in Hx. lia.
+Qed.
+
+Theorem sorted_index_correct cols by_ kcs :
+  let n := nrows cols in
+  by_ <> [] -> key_columns cols by_ = Some kcs -> frame_ok n cols = true ->
+  exists fields, readers_of by_ cols = Ok fields /\
+                 sorted_index_of fields = Ok (lexsort_perm (rows_of n kcs)) /\ 0 <= n.
+Proof.
+  intros n Hne Hk Hok.
+  destruct (key_columns_readers cols by_ kcs Hk) as [_ [fields [Hr [Hm Hf]]]].
+  exists fields. split; [exact Hr|].
+  destruct fields as [|r0 rest].
+  { destruct by_; [contradiction|]. cbn [readers_of] in Hr. destruct (lookup z cols); [|discriminate].
+    destruct (readers_of by_ cols); discriminate. }
+  assert (Hall : Forall (fun f => wf_body (fbody f) /\ field_len f = n) (r0 :: rest)).
+  { eapply Forall_impl; [|exact Hf]. intros f [k' Hin]. exact (frame_ok_in n cols (k', f) Hok Hin). }
+  pose proof (Forall_inv Hall) as [Hwf0 Hl0].
+  assert (Hn : 0 <= n) by (rewrite <- Hl0, (field_len_cells r0 Hwf0); apply len_nonneg).
+  split; [|exact Hn]. unfold sorted_index_of. rewrite Hl0, Hm.
+  apply dataset_sort_index_lexsort; [rewrite <- Hm; discriminate|exact Hn|].
+  rewrite <- Hm. apply Forall_forall. intros c Hc. apply in_map_iff in Hc. destruct Hc as [f [<- Hin]].
+  rewrite Forall_forall in Hall. destruct (Hall f Hin) as [Hwf Hl]. rewrite <- (field_len_cells f Hwf). exact Hl.
+Qed.
+
+Theorem df_sort_correct cols by_ ddf r :
+  spec_sort cols by_ ddf = Some r -> df_sort_values cols by_ ddf = Ok r.
+Proof.
+  unfold spec_sort. set (n := nrows cols).
+  destruct by_ as [|k0 kt] eqn:Eby; [discriminate|]. rewrite <- Eby.
+  destruct (key_columns cols by_) as [kcs|] eqn:Hk; [|rewrite Eby; discriminate].
+  replace (match by_ with [] => None | _ :: _ => if frame_ok n cols && nodup_names cols && dest_ok cols ddf
+             then Some (spec_select cols (lexsort_perm (rows_of n kcs)) ddf) else None end)
+    with (if frame_ok n cols && nodup_names cols && dest_ok cols ddf
+          then Some (spec_select cols (lexsort_perm (rows_of n kcs)) ddf) else None : option (frame * option frame))
+    by (rewrite Eby; reflexivity).
+  destruct (frame_ok n cols) eqn:Hok; [|discriminate].
+  destruct (nodup_names cols) eqn:Hnd; [|discriminate].
+  destruct (dest_ok cols ddf) eqn:Hdst; [|discriminate].
+  cbn [andb]. intros H. inversion H; subst r; clear H.
+  assert (Hne : by_ <> []) by (rewrite Eby; discriminate).
+  destruct (sorted_index_correct cols by_ kcs Hne Hk Hok) as [fields [Hr [Hs Hn]]]. fold n in Hs, Hn.
+  destruct (key_columns_readers cols by_ kcs Hk) as [Hall _].
+  unfold df_sort_values, validate_selected_keys. rewrite Hall.
+  replace (match by_ with [] => Raise E_ValueError | _ :: _ => Ok by_ end) with (Ok by_ : res (list Z))
+    by (rewrite Eby; reflexivity).
+  cbn [bind]. rewrite Hr. cbn [bind]. rewrite Hs. cbn [bind].
+  apply df_index_correct. unfold spec_index. fold n. rewrite Hok, Hnd, Hdst, (lexsort_in_range n kcs Hn).
+  reflexivity.
+Qed.
+
+(* ------------------------------------------------------------------ rows stay aligned *)
+(* decoding what `select_body` stored gives back the gathered entries *)
+Lemma body_cells_select b ps :
+  wf_body b -> in_range (len (body_cells b)) ps = true ->
+  body_cells (select_body b ps) = gather [] (body_cells b) ps.
+Proof.
+  intros Hwf Hr. destruct Hwf as [d| |cs].
+  - rewrite dat_select. unfold body_cells, field_cells. cbn [fbody]. unfold gather. rewrite !map_map.
+    apply map_ext_in. intros p Hp. unfold in_range in Hr. rewrite forallb_forall in Hr. specialize (Hr p Hp).
+    unfold body_cells, field_cells in Hr. cbn [fbody] in Hr. unfold len in Hr. rewrite map_length in Hr.
+    rewrite (nthd_map _ 0) by (unfold len; lia). reflexivity.
+  - cbn in Hr. apply in_range_0 in Hr. subst ps. reflexivity.
+  - rewrite idx_select. rewrite !body_cells_idx. reflexivity.
+Qed.
+
+(* the pure list fact: gathering every column by the same positions gathers the rows *)
+Theorem columns_stay_aligned (colcells:list (list cell)) ps n :
+  in_range n ps = true ->
+  rows_of (len ps) (map (fun c => gather [] c ps) colcells) = gather [] (rows_of n colcells) ps.
+Proof.
+  intros Hr. unfold rows_of at 1. unfold gather at 2.
+  replace (Z.to_nat (len ps)) with (length ps) by (unfold len; lia).
+  transitivity (map (fun p => nthd [] (rows_of n colcells) p) (map (nthd 0 ps) (iota 0 (length ps))));
+    [|rewrite map_nthd_iota; reflexivity].
+  rewrite map_map.
+  apply map_ext_in. intros i Hi. apply iota_In in Hi.
+  assert (Hp : 0 <= nthd 0 ps i < n).
+  { unfold in_range in Hr. rewrite forallb_forall in Hr. specialize (Hr (nthd 0 ps i)).
+    assert (In (nthd 0 ps i) ps) by (unfold nthd; apply nth_In; lia). specialize (Hr H). lia. }
+  rewrite rows_of_nthd by exact Hp. unfold row_at. rewrite map_map. apply map_ext. intros c.
+  unfold gather. rewrite (nthd_map _ 0) by (unfold len; lia). reflexivity.
+Qed.
+
+(* rows of a frame = rows of its decoded columns *)
+Definition frame_rows (cols:frame) : list (list cell) :=
+  rows_of (nrows cols) (map (fun nf:Z * field => field_cells (snd nf)) cols).
+
+Theorem select_rows_aligned cols ps :
+  let n := nrows cols in
+  cols <> [] -> frame_ok n cols = true -> in_range n ps = true ->
+  frame_rows (map (sel_col ps None) cols) = gather [] (frame_rows cols) ps.
+Proof.
+  intros n Hne Hok Hr. unfold frame_rows. fold n.
+  assert (Hcells : map (fun nf:Z * field => field_cells (snd nf)) (map (sel_col ps None) cols)
+                   = map (fun c => gather [] c ps) (map (fun nf:Z * field => field_cells (snd nf)) cols)).
+  { rewrite !map_map. apply map_ext_in. intros nf Hin. unfold sel_col. cbn [snd].
+    destruct (frame_ok_in n cols nf Hok Hin) as [Hwf Hl].
+    rewrite !field_cells_body. cbn [fbody]. apply body_cells_select; [exact Hwf|].
+    rewrite <- field_cells_body, <- (field_len_cells _ Hwf), Hl. exact Hr. }
+  rewrite Hcells.
+  assert (Hn' : nrows (map (sel_col ps None) cols) = len ps).
+  { destruct cols as [|[k f] t]; [contradiction|]. cbn [map nrows sel_col fst snd].
+    destruct (frame_ok_in n ((k, f) :: t) (k, f) Hok (or_introl eq_refl)) as [Hwf Hl]. cbn [snd] in *.
+    assert (Hwf' : wf_body (select_body (fbody f) ps)).
+    { destruct Hwf as [d| |cs]; [rewrite dat_select; constructor| |rewrite idx_select; constructor].
+      rewrite unwritten_select. constructor. }
+    rewrite field_len_cells by exact Hwf'. rewrite field_cells_body. cbn [fbody].
+    rewrite body_cells_select; [unfold gather, len; rewrite map_length; reflexivity|exact Hwf|].
+    rewrite <- field_cells_body, <- (field_len_cells _ Hwf), Hl. exact Hr. }
+  rewrite Hn'. apply columns_stay_aligned. exact Hr.
+Qed.
+
+(* ------------------------------------------------------------------ multiset of rows *)
+Theorem sort_multiset_preserved {A} (d:A) (rows:list A) ps :
+  Permutation ps (iota 0 (length rows)) -> Permutation (gather d rows ps) rows.
+Proof.
+  intros Hp. unfold gather. transitivity (map (nthd d rows) (iota 0 (length rows))).
+  - apply Permutation_map. exact Hp.
+  - rewrite map_nthd_iota. reflexivity.
+Qed.
+
+Lemma mask_sublist {A} (l:list A) : forall m, sublist (FilterIndex.mask l m) l.
+Proof.
+  induction l as [|x t IH]; intros m; [destruct m; constructor|].
+  destruct m as [|b mt]; cbn [FilterIndex.mask].
+  - clear IH. induction (x :: t) as [|y u IHu]; constructor. exact IHu.
+  - destruct b; [apply sub_keep|apply sub_skip]; apply IH.
+Qed.
+
+Theorem filter_subset {A} (d:A) (rows:list A) m :
+  length m = length rows -> sublist (gather d rows (sel m)) rows.
+Proof. intros H. rewrite <- (mask_gather d rows m H). apply mask_sublist. Qed.
